@@ -277,6 +277,21 @@ func statusProto(e *ErrSpec) *status.Status {
 	return st
 }
 
+// jsonExpressible drops the details whose type cannot be resolved: a google.rpc.Status in JSON (the REST error
+// representation) has no way to carry them.
+func jsonExpressible(e *ErrSpec) *ErrSpec {
+	if e == nil {
+		return nil
+	}
+	out := &ErrSpec{Code: e.Code, Msg: e.Msg}
+	for _, d := range e.Details {
+		if _, err := protoregistry.GlobalTypes.FindMessageByName(protoreflect.FullName(d.Type)); err == nil {
+			out.Details = append(out.Details, d)
+		}
+	}
+	return out
+}
+
 func errFromStatusProto(st *status.Status) *ErrSpec {
 	e := &ErrSpec{Code: int(st.GetCode()), Msg: st.GetMessage()}
 	for _, d := range st.GetDetails() {
